@@ -114,6 +114,9 @@ PEER = '02:00:00:00:00:01'
 FIN, SYN, RST, PSH, ACK, URG, ECE, CWR, NS = 1, 2, 4, 8, 16, 32, 64, 128, 256
 
 if __name__ == '__main__':
+    import sys
+    if '--build-only' in sys.argv:
+        print(build()); sys.exit(0)
     d = Driver()
     print(d.cfg(mac=MAC))
     f = eth(MAC, PEER, 0x0800, ip4('10.0.0.2', '10.0.0.1', 1, icmp(8, 0, b'\0\1\0\2hello')))
